@@ -5,6 +5,7 @@
   used by `Props/Tie/*.lean`.
 -/
 import Emitter.Model.Base
+set_option linter.unusedSimpArgs false
 namespace Emitter.Bits
 open Emitter
 
@@ -130,6 +131,13 @@ theorem unexpireOf_toInt (u : Int64) :
   · rw [i64_sub _ _ (by rw [o]; omega) (by rw [o]; omega), o]
   · rfl
 
+theorem u32_of_sub (a b : Int64) :
+    (a - b).toUInt64.toUInt32 = UInt32.ofNat ((a.toInt - b.toInt) % 4294967296).toNat := by
+  rw [u32_of_i64, Int64.toInt_sub]
+  congr 2
+  simp only [Int.bmod]
+  split <;> omega
+
 /-! 64-bit analogue (the value of `binary.BigEndian.Uint64`) -/
 theorem nat_or_step (x y n : Nat) (hy : y < 2 ^ n) : x <<< n ||| y = x * 2 ^ n + y := by
   rw [← Nat.shiftLeft_add_eq_or_of_lt hy x, Nat.shiftLeft_eq]
@@ -237,5 +245,35 @@ theorem set4 {α} (l : List α) (i : Nat) (a b c d : α) (h : i + 4 ≤ l.length
   | succ n ih =>
       match l, h with
       | x :: r, h => simp at h; simp [ih r h]
+
+/-! normalisation modulo associativity and commutativity of the bitwise operators (ordered rewriting by `simp`;
+`ac_rfl` is not usable here: it unfolds the shifts by literals when it compares atoms) -/
+theorem or_left_comm8 (a b c : UInt8) : a ||| (b ||| c) = b ||| (a ||| c) := by
+  rw [← UInt8.or_assoc, UInt8.or_comm a b, UInt8.or_assoc]
+theorem and_left_comm8 (a b c : UInt8) : a &&& (b &&& c) = b &&& (a &&& c) := by
+  rw [← UInt8.and_assoc, UInt8.and_comm a b, UInt8.and_assoc]
+theorem xor_left_comm8 (a b c : UInt8) : a ^^^ (b ^^^ c) = b ^^^ (a ^^^ c) := by
+  rw [← UInt8.xor_assoc, UInt8.xor_comm a b, UInt8.xor_assoc]
+theorem or_left_comm16 (a b c : UInt16) : a ||| (b ||| c) = b ||| (a ||| c) := by
+  rw [← UInt16.or_assoc, UInt16.or_comm a b, UInt16.or_assoc]
+theorem and_left_comm16 (a b c : UInt16) : a &&& (b &&& c) = b &&& (a &&& c) := by
+  rw [← UInt16.and_assoc, UInt16.and_comm a b, UInt16.and_assoc]
+theorem xor_left_comm16 (a b c : UInt16) : a ^^^ (b ^^^ c) = b ^^^ (a ^^^ c) := by
+  rw [← UInt16.xor_assoc, UInt16.xor_comm a b, UInt16.xor_assoc]
+theorem or_left_comm32 (a b c : UInt32) : a ||| (b ||| c) = b ||| (a ||| c) := by
+  rw [← UInt32.or_assoc, UInt32.or_comm a b, UInt32.or_assoc]
+theorem and_left_comm32 (a b c : UInt32) : a &&& (b &&& c) = b &&& (a &&& c) := by
+  rw [← UInt32.and_assoc, UInt32.and_comm a b, UInt32.and_assoc]
+theorem xor_left_comm32 (a b c : UInt32) : a ^^^ (b ^^^ c) = b ^^^ (a ^^^ c) := by
+  rw [← UInt32.xor_assoc, UInt32.xor_comm a b, UInt32.xor_assoc]
+theorem or_left_comm64 (a b c : UInt64) : a ||| (b ||| c) = b ||| (a ||| c) := by
+  rw [← UInt64.or_assoc, UInt64.or_comm a b, UInt64.or_assoc]
+theorem and_left_comm64 (a b c : UInt64) : a &&& (b &&& c) = b &&& (a &&& c) := by
+  rw [← UInt64.and_assoc, UInt64.and_comm a b, UInt64.and_assoc]
+theorem xor_left_comm64 (a b c : UInt64) : a ^^^ (b ^^^ c) = b ^^^ (a ^^^ c) := by
+  rw [← UInt64.xor_assoc, UInt64.xor_comm a b, UInt64.xor_assoc]
+
+/-- closes / normalises a goal whose two sides differ by re-ordering operands of `|||`, `&&&`, `^^^` -/
+macro "tie_ac" : tactic => `(tactic| simp only [UInt8.or_assoc, UInt8.or_comm, Emitter.Bits.or_left_comm8, UInt8.and_assoc, UInt8.and_comm, Emitter.Bits.and_left_comm8, UInt8.xor_assoc, UInt8.xor_comm, Emitter.Bits.xor_left_comm8, UInt16.or_assoc, UInt16.or_comm, Emitter.Bits.or_left_comm16, UInt16.and_assoc, UInt16.and_comm, Emitter.Bits.and_left_comm16, UInt16.xor_assoc, UInt16.xor_comm, Emitter.Bits.xor_left_comm16, UInt32.or_assoc, UInt32.or_comm, Emitter.Bits.or_left_comm32, UInt32.and_assoc, UInt32.and_comm, Emitter.Bits.and_left_comm32, UInt32.xor_assoc, UInt32.xor_comm, Emitter.Bits.xor_left_comm32, UInt64.or_assoc, UInt64.or_comm, Emitter.Bits.or_left_comm64, UInt64.and_assoc, UInt64.and_comm, Emitter.Bits.and_left_comm64, UInt64.xor_assoc, UInt64.xor_comm, Emitter.Bits.xor_left_comm64])
 
 end Emitter.Bits
